@@ -31,10 +31,16 @@ def theorems(ctx):
 
 
 def nl(v):
+    v = list(v)
+    if not v:                      # an untyped [] cannot be elaborated
+        return "(@nil nat)"
     return listlit([f"{int(x)}%nat" for x in v])
 
 
 def ql(v):
+    v = list(v)
+    if not v:
+        return "(@nil Q)"
     return listlit([qlit(float(x)) for x in v])
 
 
@@ -349,10 +355,14 @@ def correspondence(ctx):
         warnings.simplefilter("ignore")
         run_all(ctx, terms)
     ctx._done = True
+    types = {"tw": "list (list Q) * nat * Q * nat * list (list nat)",
+             "twr": "list (list bool) * nat * list (list nat)",
+             "walk": "list (list nat) * list Q * list nat"}
     for k, fn, chunk in (("tw", "check_twins", 30), ("twr", "check_twins_r",
                                                      30),
                          ("walk", "check_walk", 40)):
-        fails = ctx.coq_failing("c15_" + k, HEADER, terms[k], fn, chunk=chunk)
+        fails = ctx.coq_failing("c15_" + k, HEADER, terms[k], fn, chunk=chunk,
+                                case_type=types[k])
         for i in fails or []:
             ctx.corr(f"surrogate model != implementation ({k})",
                      terms[k + "_meta"][i], None)
